@@ -255,6 +255,13 @@ def _abs_evaluate(ex, obj, args, kwargs, node):
     return r
 
 
+def _abs_evaluate_kernel(ex, obj, args, kwargs, node):
+    """`_evaluate` of an abstract scorer called directly: the same uninterpreted value as `evaluate` (for cuts that
+    `evaluate` would accept), with an event saying that the scorer's own validation was bypassed"""
+    ex.emit("scorer_kernel_direct", node, obj=obj)
+    return _abs_evaluate(ex, obj, args, kwargs, node)
+
+
 def _abs_check_is_fitted(ex, obj, args, kwargs, node):
     ex.emit("check_is_fitted", node, obj=obj)
     return NONE
@@ -268,6 +275,7 @@ def _abs_get_param_size(ex, obj, args, kwargs, node):
 ABSTRACT_SUMMARIES = {
     "abstract:fit": _abs_fit,
     "abstract:evaluate": _abs_evaluate,
+    "abstract:_evaluate": _abs_evaluate_kernel,
     "abstract:get_param_size": _abs_get_param_size,
 }
 
